@@ -91,3 +91,15 @@ Proof.
   split; [vm_compute; reflexivity|].
   eexists. eexists. split; [vm_compute; reflexivity|]. split; vm_compute; reflexivity.
 Qed.
+
+(* the uncle schedule at its edges: depth 7 pays 1/8 AQUA, depth 8 pays nothing to the uncle's miner (the nephew
+   reward is still paid), two uncles of one miner add up, and an uncle ABOVE the block (which only VerifyUncles,
+   property C13, keeps out: accumulateRewards has no guard of its own) would be paid more than a block *)
+Example C05_uncle_edges :
+  issuance 100 [mkUncle 93 7] = (1000000000000000000 + 125000000000000000 + 31250000000000000)%Z /\
+  issuance 100 [mkUncle 92 7] = (1000000000000000000 + 0 + 31250000000000000)%Z /\
+  issuance 100 [mkUncle 99 7; mkUncle 98 7] = (1000000000000000000 + 875000000000000000 + 750000000000000000 + 2 * 31250000000000000)%Z /\
+  issuance 100 [mkUncle 102 7] = (1000000000000000000 + 1250000000000000000 + 31250000000000000)%Z /\
+  bal (get 7 (accumulate_rewards (mkHeader 100 7 0 0) [mkUncle 93 7; mkUncle 92 7] [])) = (1000000000000000000 + 125000000000000000 + 2 * 31250000000000000)%Z /\
+  issuance 42000000 [mkUncle 41999999 7] = 0%Z.
+Proof. vm_compute. repeat split; reflexivity. Qed.
